@@ -163,7 +163,12 @@ func buildTree(prog string, input []byte, vals []any) (*tree, error) {
 }
 
 // expected lists the values displayed when node ni is displayed, in display order.
-func (t *tree) expected(ni int) []expVal {
+//
+// at is the effective array_truncate: below the displayed value (never the displayed
+// value itself) the element with index at of an array is replaced by one line
+// "[at:len]: ..." and the remaining elements are not shown (doc/usage.md: "array_truncate
+// - number of elements to show for arrays"); 0 shows everything.
+func (t *tree) expected(ni int, at int) []expVal {
 	var out []expVal
 	top := t.nodes[ni].v
 	var walk func(v *decode.Value, depth, rootDepth int)
@@ -185,6 +190,11 @@ func (t *tree) expected(ni int) []expVal {
 		out = append(out, ev)
 		if c, ok := v.V.(*decode.Compound); ok {
 			for _, ch := range c.Children {
+				if at > 0 && c.IsArray && ch.Index >= at {
+					out = append(out, expVal{path: dsl.PathOf(ch) + " (truncation line)", prefix: fmt.Sprintf("[%d:%d]", ch.Index, len(c.Children)),
+						depth: depth + 1, rootDepth: rootDepth, synthetic: true})
+					break
+				}
 				walk(ch, depth+1, rootDepth)
 			}
 		}
@@ -207,7 +217,7 @@ func treeCfgs(lbs []int) []treeCfg {
 		for _, lb := range lbs {
 			for _, ab := range addrBases {
 				for j := 0; j < 20; j++ {
-					o := Opt{LB: lb, AddrBase: ab, SizeBase: sizeBases[j%5], DB: fv.db, Verbose: -1, Color: (j/5)%2 == 1, Unicode: (j/10)%2 == 1}
+					o := Opt{LB: lb, AddrBase: ab, SizeBase: sizeBases[j%5], DB: fv.db, Verbose: -1, Color: (j/5)%2 == 1, Unicode: (j/10)%2 == 1, AT: []int{0, 1, 0, 2}[j%4]}
 					out = append(out, treeCfg{fv, o})
 				}
 			}
@@ -254,6 +264,17 @@ func newTreeEnv(r *core.Run, x *sess, lbs []int) *treeEnv {
 	return e
 }
 
+// effAT is the array_truncate in effect: the function's documented default unless passed.
+func (c treeCfg) effAT() int {
+	if c.o.AT > 0 {
+		return c.o.AT
+	}
+	if c.fv.fn == "d" {
+		return 50
+	}
+	return 0
+}
+
 func (c treeCfg) effDB() int {
 	if c.fv.db >= 0 {
 		return c.fv.db
@@ -266,7 +287,7 @@ func judgeTree(t *tree, ni int, c treeCfg, out string) []finding {
 	if fnVerbose(c.fv.fn) {
 		vm = 1
 	}
-	return checkDump(out, c.o, vm, c.effDB(), t.expected(ni))
+	return checkDump(out, c.o, vm, c.effDB(), t.expected(ni, c.effAT()))
 }
 
 func (e *treeEnv) mkCase(t *tree, ni int, c treeCfg) TreeCase {
@@ -386,7 +407,7 @@ func runTreeReal(r *core.Run, e *treeEnv, unit *int64) {
 					nr = nodes[0] // the whole first tree: deepest nesting
 				}
 				c := e.cfgs[ci]
-				w := e.dump(nr.t, nr.ni, ci, nr.t.expected(nr.ni))
+				w := e.dump(nr.t, nr.ni, ci, nr.t.expected(nr.ni, c.effAT()))
 				jq = append(jq, []any{nr.t.nodes[nr.ni].jq, c.fv.fn, c.o.JQ()})
 				refs = append(refs, nr)
 				cis = append(cis, ci)
@@ -432,9 +453,56 @@ func runTreeReal(r *core.Run, e *treeEnv, unit *int64) {
 // runTrees: every value of every DSL tree (all programs up to maxOps ops) displayed
 // with every configuration of e.cfgs.
 func runTrees(r *core.Run, e *treeEnv, unit *int64, minOps, maxOps int, inputs [][]byte, section string, sel func(e *treeEnv, n int64, buf []int) []int) {
+	runTreesOf(r, e, unit, minOps, inputs, section, sel, func(fn func(idx int64, p dsl.Prog) bool) int64 { return dsl.Enumerate(maxOps, 3, fn) })
+}
+
+// arrayFamily: arrays of k elements (leaves of w bits, structs of one leaf, arrays of two
+// leaves), alone and inside a struct, for k around the array_truncate values passed
+// (1, 2) and around the default of d (50): every element is displayed on its own (the
+// displayed value is never truncated, whatever its index) and inside its parents (the
+// element with index array_truncate is replaced by the truncation line).
+func arrayFamily() []dsl.Prog {
+	var out []dsl.Prog
+	for _, kw := range [][2]int64{{2, 8}, {3, 8}, {4, 3}, {3, 13}, {49, 1}, {50, 1}, {51, 1}, {52, 1}} {
+		k, w := kw[0], kw[1]
+		for kind := 0; kind < 3; kind++ {
+			if kind > 0 && k > 4 {
+				continue
+			}
+			var body []dsl.Op
+			for i := int64(0); i < k; i++ {
+				switch kind {
+				case 0:
+					body = append(body, dsl.Op{K: "u", W: w})
+				case 1:
+					body = append(body, dsl.Op{K: "struct", Body: []dsl.Op{{K: "u", W: w}}})
+				case 2:
+					body = append(body, dsl.Op{K: "array", Body: []dsl.Op{{K: "u", W: w}, {K: "u", W: 2}}})
+				}
+			}
+			arr := dsl.Op{K: "array", Body: body}
+			out = append(out, dsl.Prog{arr}, dsl.Prog{{K: "u", W: 5}, {K: "struct", Body: []dsl.Op{arr}}})
+		}
+	}
+	return out
+}
+
+func runArrayTrees(r *core.Run, e *treeEnv, unit *int64) {
+	fam := arrayFamily()
+	runTreesOf(r, e, unit, 1, dslInputs[:1], "array_truncate_trees", selAll, func(fn func(idx int64, p dsl.Prog) bool) int64 {
+		for i, p := range fam {
+			if !fn(int64(i), p) {
+				break
+			}
+		}
+		return int64(len(fam))
+	})
+}
+
+func runTreesOf(r *core.Run, e *treeEnv, unit *int64, minOps int, inputs [][]byte, section string, sel func(e *treeEnv, n int64, buf []int) []int, enum func(fn func(idx int64, p dsl.Prog) bool) int64) {
 	const batch = 64
 	var progs []string
-	var dumps, nodes, ntrees, failed int64
+	var dumps, nodes, ntrees, failed, truncated int64
 	var selbuf []int
 	perValue := 0
 	flush := func() bool {
@@ -460,10 +528,20 @@ func runTrees(r *core.Run, e *treeEnv, unit *int64, minOps, maxOps int, inputs [
 				}
 				for ni := range t.nodes {
 					nodes++
-					exp := t.expected(ni)
+					exps := map[int][]expVal{}
 					selbuf = sel(e, nodes, selbuf[:0])
 					for _, ci := range selbuf {
-						e.dump(t, ni, ci, exp)
+						at := e.cfgs[ci].effAT()
+						if _, ok := exps[at]; !ok {
+							exps[at] = t.expected(ni, at)
+						}
+						e.dump(t, ni, ci, exps[at])
+					}
+					exp := t.expected(ni, 0)
+					for at, x := range exps {
+						if at > 0 && len(x) < len(exp) {
+							truncated++
+						}
 					}
 					dumps += int64(len(selbuf))
 					perValue = len(selbuf)
@@ -483,7 +561,7 @@ func runTrees(r *core.Run, e *treeEnv, unit *int64, minOps, maxOps int, inputs [
 	}
 	base := *unit
 	cut := false
-	total := dsl.Enumerate(maxOps, 3, func(idx int64, p dsl.Prog) bool {
+	total := enum(func(idx int64, p dsl.Prog) bool {
 		if countOps(p) < minOps {
 			return true
 		}
@@ -511,6 +589,7 @@ func runTrees(r *core.Run, e *treeEnv, unit *int64, minOps, maxOps int, inputs [
 	r.Eval(dumps)
 	r.Count(section+"_dumps", dumps)
 	r.Count(section+"_values", nodes)
+	r.Count(section+"_displays_with_truncation_line", truncated)
 	r.Count(section+"_trees", ntrees)
 	r.Count(section+"_programs_without_tree", failed)
 	if !cut {
